@@ -21,6 +21,11 @@ NA = {
 PENDING_REASON = "claimed in DESIGN.md; its check is still under construction (moves to checks[] when its command exists)"
 
 CHECKS = {
+"C03": dict(
+  text="Seeded exploration (deterministic simulation), scoped: 'never evaluated' and 'at most once' are checked over the recorded history of std.trace events while a simulated embedding host forces the lazy result graph through the public Rust API in a seeded order, with repetition, through several access paths, and with demands cut off by a frame limit at arbitrary points (then retried). The memo state machines behind the property (thunks, array element caches, object field caches, object-local caches, import cache) are thereby driven through orders no single evaluation reaches. The space of programs is a fixed family of 30 templates with statically known label budgets and planted error/divergence bombs; it is not explored. A clean batch is evidence, not proof.",
+  note="Trusted: the label budgets and bomb placement of the templates. NOT decided: C03 over all programs (the quantifier of the property is over programs, which is input generation, a different technique family); exponential-time regressions that keep counts <= 1.",
+  technique="deterministic simulation: seeded demand schedules and cut-off faults over the lazy result graph, exactly-once oracle over the recorded trace history",
+  design="§5.1"),
 "C04": dict(
   text="Seeded exploration (deterministic simulation), scoped to the clauses of C04 that quantify over crash points, histories and configurations: (ii) frame-limit cut-off swept over every depth of depth-parametric templates (value or StackOverflow, monotone, shallow recursion fits the defaults, quiescent interpreter state after every cut-off), (iii) self-dependence reported as infinite recursion, (iv) after any history of failing evaluations the same thread and states evaluate a canary normally, and the process-level half of (i): the jrsonnet executable, supervised as a child across --max-stack/--os-stack settings, never dies by signal, abort or hang on runaway recursion, deep legal recursion or deeply nested source. A clean batch is evidence, not proof.",
   note="NOT decided: clause (i) over arbitrary source text and arbitrary std arguments (a statement about inputs, outside this technique). Trusted: closed forms of the templates; the dev-profile executable stands for the shipped one (release has panic=abort and smaller frames). Known findings F10 (deeply nested source overflows the native stack) and F12 (recursive Drop of long value chains) are matched by family and depth only.",
